@@ -7,6 +7,7 @@ from __future__ import annotations
 import ast
 import hashlib
 import os
+import re
 from typing import Callable, Iterable, Iterator, Optional
 
 REPO_ROOT = os.environ.get("VERIF_REPO", "/repo")
@@ -278,6 +279,97 @@ class Normalise(ast.NodeTransformer):
     visit_AsyncFunctionDef = visit_FunctionDef
 
 
+_CONST_NAME = re.compile(r"^_?[A-Z][A-Z0-9_]*$")
+
+
+def _pure_literal(v, depth=0) -> bool:
+    """literals whose value cannot change: numbers, strings, None/bool, -k, tuples / lists / sets / dicts of such, frozenset(...) / tuple(...) / set(...) of one such"""
+    if depth > 4:
+        return False
+    if isinstance(v, ast.Constant):
+        return True
+    if isinstance(v, ast.UnaryOp) and isinstance(v.op, ast.USub) and isinstance(v.operand, ast.Constant):
+        return True
+    if isinstance(v, (ast.Tuple, ast.List, ast.Set)):
+        return all(_pure_literal(e, depth + 1) for e in v.elts)
+    if isinstance(v, ast.Dict):
+        return all(k is not None and _pure_literal(k, depth + 1) and _pure_literal(x, depth + 1) for k, x in zip(v.keys, v.values))
+    if isinstance(v, ast.Call) and isinstance(v.func, ast.Name) and v.func.id in ("frozenset", "tuple", "set") and len(v.args) == 1 and not v.keywords:
+        return _pure_literal(v.args[0], depth + 1)
+    return False
+
+
+def propagate_constants(tree: ast.Module) -> ast.Module:
+    """N9  NAME = <literal> at module level (or in a class body), CONSTANT_CASE, bound exactly once and never re-bound / declared global / deleted anywhere in the module:
+    every load of NAME (resp. of self.NAME / cls.NAME / <Class>.NAME) inside a function is replaced by the literal. A "named constant" refactoring (a literal moved to
+    module or class level) is thereby invisible to the rules; nothing else changes (the defining assignment stays)."""
+    if os.environ.get("SA_N9", "1") == "0":
+        return tree
+    stores: dict = {}
+    for n in ast.walk(tree):
+        if isinstance(n, ast.Name) and isinstance(n.ctx, (ast.Store, ast.Del)):
+            stores[n.id] = stores.get(n.id, 0) + 1
+        elif isinstance(n, (ast.Global, ast.Nonlocal)):
+            for nm in n.names:
+                stores[nm] = stores.get(nm, 0) + 2
+        elif isinstance(n, (ast.FunctionDef, ast.AsyncFunctionDef, ast.ClassDef)):
+            stores[n.name] = stores.get(n.name, 0) + 2
+        elif isinstance(n, ast.arg):
+            stores[n.arg] = stores.get(n.arg, 0) + 2
+        elif isinstance(n, ast.alias):
+            nm = (n.asname or n.name).split(".")[0]
+            stores[nm] = stores.get(nm, 0) + 2
+    attr_stores = {n.attr for n in ast.walk(tree) if isinstance(n, ast.Attribute) and isinstance(n.ctx, (ast.Store, ast.Del))}
+    mod_consts = {}
+    for st in tree.body:
+        if isinstance(st, ast.Assign) and len(st.targets) == 1 and isinstance(st.targets[0], ast.Name) and _CONST_NAME.match(st.targets[0].id) \
+                and stores.get(st.targets[0].id) == 1 and _pure_literal(st.value):
+            mod_consts[st.targets[0].id] = st.value
+    cls_consts: dict = {}
+    for c in ast.walk(tree):
+        if isinstance(c, ast.ClassDef):
+            for st in c.body:
+                if isinstance(st, ast.Assign) and len(st.targets) == 1 and isinstance(st.targets[0], ast.Name) and _CONST_NAME.match(st.targets[0].id) and _pure_literal(st.value) \
+                        and st.targets[0].id not in attr_stores and sum(1 for x in c.body if isinstance(x, ast.Assign) and any(isinstance(t, ast.Name) and t.id == st.targets[0].id for t in x.targets)) == 1:
+                    cls_consts.setdefault(st.targets[0].id, []).append((c.name, st.value))
+    # a class constant is propagated only if its name is unique among the classes of the module (no overriding in a subclass to worry about)
+    cls_consts = {k: v[0] for k, v in cls_consts.items() if len(v) == 1}
+    if not mod_consts and not cls_consts:
+        return tree
+
+    def lit(v, at):
+        new = ast.parse(ast.unparse(v), mode="eval").body
+        for x in ast.walk(new):
+            ast.copy_location(x, at)
+        new._from_constant = True  # type: ignore[attr-defined]
+        return new
+
+    class P(ast.NodeTransformer):
+        def __init__(self):
+            self.depth = 0
+
+        def _fn(self, n):
+            self.depth += 1
+            self.generic_visit(n)
+            self.depth -= 1
+            return n
+
+        visit_FunctionDef = visit_AsyncFunctionDef = visit_Lambda = _fn
+
+        def visit_Name(self, n):
+            if self.depth and isinstance(n.ctx, ast.Load) and n.id in mod_consts:
+                return lit(mod_consts[n.id], n)
+            return n
+
+        def visit_Attribute(self, n):
+            self.generic_visit(n)
+            if self.depth and isinstance(n.ctx, ast.Load) and n.attr in cls_consts and isinstance(n.value, ast.Name) and n.value.id in ("self", "cls", cls_consts[n.attr][0]):
+                return lit(cls_consts[n.attr][1], n)
+            return n
+
+    return P().visit(tree)
+
+
 def _terminates(stmts) -> bool:
     """the statement list cannot complete normally (its last statement is return / raise / continue / break, or an if/else both of whose arms cannot)."""
     if not stmts:
@@ -370,6 +462,7 @@ class Module:
         self.tree = ast.parse(text, filename=relpath)
         if os.environ.get("SA_N8", "1") != "0":
             self.tree = else_after_jump(self.tree)
+        self.tree = propagate_constants(self.tree)
         self.tree = Normalise().visit(self.tree)
         ast.fix_missing_locations(self.tree)
         set_parents(self.tree)
